@@ -31,7 +31,7 @@ NAMES = ["a", "b", "a-b.c_1", "é_n"]
 
 def strings(n, attr_slot):
     alpha = [c for c in ALPHA if not (attr_slot and c == "\n")]
-    out = []
+    out = [""] if attr_slot else [None, ""]     # absent text (content / tail) and the empty string
     for k in range(1, n + 1):
         for t in itertools.product(alpha, repeat=k):
             out.append("".join(t))
@@ -39,8 +39,11 @@ def strings(n, attr_slot):
     return out
 
 
+PAIR_WORDS = ["]]>", "&amp;", "<para>", "\U0001F600", " a ", "Pre&amplifier", "&#"]
+
+
 def small_strings(attr_slot):
-    return [c for c in ALPHA if not (attr_slot and c == "\n")] + WORDS
+    return ([""] if attr_slot else [None, ""]) + [c for c in ALPHA if not (attr_slot and c == "\n")] + PAIR_WORDS
 
 
 def decorate(shape, deco):
